@@ -292,7 +292,16 @@ pub fn run(driver: &Driver, seed: u64, thorough: bool, replay: Option<&serde_jso
             return rep;
         }
     }
-    rep.streams.extend(corr::streams(driver, seed, thorough));
-    rep.oracles.push(oracle_walk(seed, thorough, None));
+    // the oracle runs first: it is protected by child processes. If it saw the library overflow the stack
+    // or hang outside the constructs owned by other packages, the in-process correspondence would die
+    // with it: it is skipped then (the oracle failures are the verdict).
+    let or = oracle_walk(seed, thorough, None);
+    let dangerous = or.histogram.keys().any(|k| k.starts_with("outcome=stack-overflow") || k.starts_with("outcome=timeout") || k.starts_with("outcome=alloc-failure") || k.starts_with("outcome=abort"));
+    if dangerous {
+        rep.notes.push("correspondence streams skipped: the walker saw the library overflow the stack / abort / hang".into());
+    } else {
+        rep.streams.extend(corr::streams(driver, seed, thorough));
+    }
+    rep.oracles.push(or);
     rep
 }
